@@ -5,6 +5,7 @@ go 1.26.4
 require (
 	github.com/anishathalye/porcupine v1.3.0
 	github.com/dgryski/go-farm v0.0.0-20240924180020-3414d57e47da
+	github.com/gogo/protobuf v1.3.2
 	github.com/temporalio/s2s-proxy v0.0.0-00010101000000-000000000000
 	go.etcd.io/gofail v0.2.0
 	go.temporal.io/api v1.62.8
@@ -25,7 +26,6 @@ require (
 	github.com/go-logr/logr v1.4.3 // indirect
 	github.com/go-logr/stdr v1.2.2 // indirect
 	github.com/gogo/googleapis v0.0.0-20180223154316-0cd9801be74a // indirect
-	github.com/gogo/protobuf v1.3.2 // indirect
 	github.com/gogo/status v1.1.1 // indirect
 	github.com/golang/mock v1.7.0-rc.1 // indirect
 	github.com/golang/protobuf v1.5.4 // indirect
